@@ -277,6 +277,10 @@ def r4_progress(ctx):
         gs = cfg.if_guards(r)
         if not any(U(cfg.stmt[h].test) == "self.visit_type == VisitType.RANDOM" and lab for h, lab in gs):
             continue
+        if any("distance_visit_mean" in U(cfg.stmt[h].test) for h, _ in gs):
+            from ._shared import refusal_side_conditions
+            for st_, g_, kind in refusal_side_conditions(cfg, r, lambda g: "distance_visit_mean" in g, U, context={"self.visit_type == VisitType.RANDOM"}):
+                ctx.violation("C18.R4", f, st_, f"the refusal of a non-positive mean spacing {kind} `{g_[:80]}`: some random designs with mean spacing <= 0 are accepted", construct="spacing validation unconditional")
         for h, lab in gs:
             t = cfg.stmt[h].test
             if "distance_visit_mean" not in U(t):
